@@ -13,21 +13,5 @@
         let (lo, hi) = lo_hi(&r);
         assert!(r.contains(x) == (lo <= x && x <= hi));
     }
-    /// BOUNDED (input length <= 2): compiled compress_lines agrees with the contract on every strictly
-    /// increasing slice of at most 2 arbitrary u32 values, for an arbitrary probe line x.
-    #[kani::proof]
-    #[kani::unwind(4)]
-    fn compress_lines_len_le_2() {
-        let a: [u32; 2] = kani::any();
-        let n: usize = kani::any();
-        kani::assume(n <= 2);
-        kani::assume(n < 2 || a[0] < a[1]);
-        let out = LineRange::compress_lines(&a[..n]);
-        let x: u32 = kani::any();
-        let in_in = (n > 0 && a[0] == x) || (n > 1 && a[1] == x);
-        assert!(out.len() <= 2);
-        let mut in_out = false;
-        if out.len() > 0 { let (lo, hi) = lo_hi(&out[0]); if lo <= x && x <= hi { in_out = true; } if let LineRange::Range(s, e) = &out[0] { assert!(s < e); } }
-        if out.len() > 1 { let (lo, hi) = lo_hi(&out[1]); if lo <= x && x <= hi { in_out = true; } let (_, hi0) = lo_hi(&out[0]); assert!((hi0 as u64) + 1 < lo as u64); }
-        assert!(in_out == in_in);
-    }
+    // A bounded harness for compress_lines (slices of length <= 2 / <= 3 over all u32) was tried and dropped:
+    // CBMC needed > 25 GB at length 3 and 57 GB at length 2 (Vec growth + slice iterator), see DESIGN.md 2.2.
